@@ -49,7 +49,8 @@ THEOREMS['C02'] = ['FB.C02_rolledBack_frame', 'FB.C02_rolledBack_files', 'FB.C02
 THEOREMS['C14'] = ['FB.C14_fault_surfaces', 'FB.C02_spec_build_raises', 'FB.C02_rolledBack_files', 'FB.MakeDirs.makeDirs_error',
                    'FB.Rollback.rollBack_restores_files']
 THEOREMS['C03'] = ['FB.C03_impl_build', 'FB.C03_impl_buildGo', 'FB.C03_impl_run_frame', 'FB.replayOp_frame', 'FB.C03_run_frame',
-                   'FB.C12_preClean_frame', 'FB.C02_rolledBack_files', 'FB.C12_impl_clean_is_preClean']
+                   'FB.C12_preClean_frame', 'FB.C02_rolledBack_files', 'FB.C12_impl_clean_is_preClean',
+                   'FB.MakeRoom.makeRoom_moved', 'FB.MakeRoom.makeRoom_keeps_virtual', 'FB.Rollback.rollBack_restores_files']
 THEOREMS['C16'] = ['FB.Codec.decode_encode', 'FB.Codec.decodeOps_encodeOps', 'FB.Codec.read_write', 'FB.Codec.replayOp_strip',
                    'FB.Codec.replayOps_strip', 'FB.Codec.isEqual_textRT', 'FB.Codec.textRT_of_wf']
 THEOREMS['C10'] = ['FB.C10_success', 'FB.C10_failure', 'FB.C10_setup', 'FB.MakeDirs.makeDirs_error', 'FB.MakeDirs.loop_error']
@@ -341,11 +342,26 @@ def check_C02(tier):
                                    lambda t, rep: bkcheck.run(t, rep) + rbcheck.run(t, rep, measure())),
                          _after=lambda rep: [rep.violation('bulk_rollback', {'property': 'C02', 'kind': 'failing-input', 'what': q},
                                                            note=json.dumps(q, default=str)[:250]) for q in bulk_rollback_probe(tier, rep)[:2]])
+def _c03_after(tier, rep):
+    explore_threads('C03', tier, rep, ['overwrite_foreign_then_fail', 'rebuild_two_then_fail'], budget(tier, 2, 3), budget(tier, 300, 5000))
+    # _make_room on its own: it may only move files the virtual tree does not know to the undo log and remove
+    # directories the virtual tree does not know (oracle), and must do what FB.MakeRoom says (tie)
+    from . import mrcheck
+    probs = mrcheck.run(tier, rep)
+    for q in [x for x in probs if x.get('oracle')][:2]:
+        rep.violation('makeroom', {'property': 'C03', 'kind': 'failing-input', 'what': q}, note=json.dumps(q, default=str)[:250])
+    tie = [x for x in probs if not x.get('oracle')]
+    rep.count('correspondence_disagreements_makeroom', len(tie))
+    if tie and not rep.violations:
+        rep.violation('makeroom_tie', {'property': 'C03', 'kind': 'correspondence-broken',
+                                       'no_longer_checks': 'FB.MakeRoom (makeRoom_moved, makeRoom_keeps_virtual) describes FileBuilder._make_room',
+                                       'what': tie[0]}, note='%s: %s' % (tie[0]['what'], json.dumps(tie[0].get('case'))[:160]), no_input=True)
+
+
 def check_C03(tier):
     # ... and when two threads overwrite foreign files in a build that is rolled back, both are back
     return run_hist_prop('C03', tier, 3, 700, 40000, p_fail=0.3, p_clean=0.2, families=gen.SCENARIOS + [gen.scen_cache_subdir],
-                         _after=lambda rep: explore_threads('C03', tier, rep, ['overwrite_foreign_then_fail', 'rebuild_two_then_fail'],
-                                                            budget(tier, 2, 3), budget(tier, 300, 5000)))
+                         _after=lambda rep: _c03_after(tier, rep))
 def check_C04(tier):
     # query-dense programs, plus call-dense ones (what a later build sees depends on what earlier ones recorded),
     # plus the BuildDirs data structure on its own, state by state
